@@ -9,7 +9,8 @@ correspondence
     and Qcon (0,4) cases —, hermite_He/H, dickson1/2, xy);
   * the property's own predicates on the real code: independent textbook formulas (DLMF 18.5.7/18.5.8 explicit sums,
     cos(n acos x) & co., Rodrigues-type sums for Hermite / Laguerre / Dickson / Zernike radial, Forbes' closed forms of
-    Qbfs 0..3), value at 1, reflection;
+    Qbfs 0..3), value at 1, reflection; the same definitions also through the *_seq entry points (gapped order lists;
+    zernike_nm_seq with +-m pairs, norm=True/False);
   * ORTHOGONALITY IS TESTED, NOT PROVED: Gauss-Jacobi / Gauss-Hermite / Gauss-Laguerre quadrature with enough nodes to be
     exact in the degree, unit-disk quadrature for Zernike, Gauss-Chebyshev for the Qbfs slopes (labelled `ortho:*`).
 """
@@ -66,6 +67,61 @@ FAMS = {
     'qcon': (lambda p, n, k, x: p.Qcon(n, x), 'qcon', (0, 1), 25, False),        # jacobi(n, 0, 4, .): int/int -> float
     'qbfs': (lambda p, n, k, x: p.Qbfs(n, x), 'qbfs', (0, 1), 25, False),
 }
+# the same families through their sequence entry points: name -> seq(p, ns, k, x)
+SEQS = {
+    'jacobi': lambda p, ns, k, x: p.jacobi_seq(ns, k[0], k[1], x),
+    'legendre': lambda p, ns, k, x: p.legendre_seq(ns, x),
+    'cheby1': lambda p, ns, k, x: p.cheby1_seq(ns, x),
+    'cheby2': lambda p, ns, k, x: p.cheby2_seq(ns, x),
+    'cheby3': lambda p, ns, k, x: p.cheby3_seq(ns, x),
+    'cheby4': lambda p, ns, k, x: p.cheby4_seq(ns, x),
+    'he': lambda p, ns, k, x: p.hermite_He_seq(ns, x),
+    'h': lambda p, ns, k, x: p.hermite_H_seq(ns, x),
+    'lag': lambda p, ns, k, x: p.laguerre_seq(ns, k[0], x),
+    'd1': lambda p, ns, k, x: p.dickson1_seq(ns, k[0], x),
+    'd2': lambda p, ns, k, x: p.dickson2_seq(ns, k[0], x),
+    'qcon': lambda p, ns, k, x: p.Qcon_seq(ns, x),
+    'qbfs': lambda p, ns, k, x: p.Qbfs_seq(ns, x),
+}
+SEQ_LISTS = [[3], [0, 1, 3], [1, 3, 5], [0, 1, 2, 3, 4, 5], [2, 7, 12], [4, 5, 9], [0, 6], [1, 2, 8, 11]]
+
+
+def seq_textbook(p, fam, k, ns, pts):
+    """family evaluated through its *_seq routine vs the textbook definition -> None or a description"""
+    tb = np.array([[textbook(fam, n, k, Fr(float(x))) for x in pts] for n in ns], dtype=object)
+    if any(v is None for v in tb.ravel()):
+        return None
+    try:
+        out = np.asarray(SEQS[fam](p, list(ns), k, np.asarray(pts, dtype=float)), dtype=float)
+    except Exception as ex:       # noqa
+        return f'{fam} seq routine raised {type(ex).__name__}: {ex}'
+    tb = tb.astype(float)
+    if out.shape != tb.shape:
+        return f'{fam} seq routine returned shape {out.shape}, expected {tb.shape}'
+    bad = [int(n) for i, n in enumerate(ns) if not close(out[i], tb[i], 1e-8)]
+    if bad:
+        return f'{fam} evaluated through its *_seq routine on orders {list(ns)}: rows for orders {bad} differ from the textbook definition'
+    return None
+
+
+def zern_seq_textbook(p, nms, r, t, norm):
+    try:
+        out = np.asarray(p.zernike_nm_seq(nms, np.asarray(r, dtype=float), np.full(len(r), t), norm=norm), dtype=float)
+    except Exception as ex:       # noqa
+        return f'zernike_nm_seq raised {type(ex).__name__}: {ex}'
+    bad = []
+    for i, (n, m) in enumerate(nms):
+        am = abs(m)
+        rad = np.array([float(zernike_radial_explicit(n, am, Fr(float(v)))) for v in r])
+        az = 1.0 if m == 0 else (math.sin(am * t) if m < 0 else math.cos(am * t))
+        nrm = math.sqrt(2 * (n + 1) / (1 + (1 if m == 0 else 0))) if norm else 1.0
+        if out.shape[0] != len(nms) or not close(out[i], rad * az * nrm):
+            bad.append([n, m])
+    if bad:
+        return f'zernike_nm_seq(norm={norm}) on {[list(q) for q in nms]}: modes {bad[:4]} differ from norm * R_n^m(r) * cos/sin(m t)'
+    return None
+
+
 JAC_PARAMS = [(-0.5, -0.5), (0.5, 0.5), (-0.5, 0.5), (0.5, -0.5), (0.0, 0.0), (1.0, 0.0), (2.3, -0.9), (0.0, 4.0),
               (0.25, -0.25), (-0.25, -0.75), (-0.5, 0.0), (3.0, 2.0)]      # includes alpha+beta in {0,-1}
 LAG_PARAMS = [0.0, 1.0, 1.5, -0.5, 2.3]
@@ -370,6 +426,34 @@ def correspondence(ctx):
         if out is not _FAILED and not close(out, rad * az * nrm):
             ctx.pred_fail('textbook:zernike', case, f'zernike_nm({n},{m}) differs from norm * R_n^m(r) * cos/sin(m t)')
 
+    # ---------------- 2b. the same textbook definitions through the *_seq entry points (gapped order lists, +-m pairs)
+    for fam in SEQS:
+        lo, hi = FAMS[fam][2]
+        plist = params_for(fam, rng, 0)
+        lists = SEQ_LISTS + [sorted(int(v) for v in rng.choice(16, size=int(rng.integers(1, 6)), replace=False)) for _ in range(scale(2, 20))]
+        for li, ns in enumerate(lists):
+            if fam == 'qbfs':
+                ns = sorted({min(n, 3) for n in ns})          # closed forms known for Q_0..Q_3
+            k = plist[li % len(plist)]
+            pts = dyadic(rng, lo, hi, (4,))
+            if fam.startswith('cheby'):
+                pts = np.clip(pts, -63 / 64, 63 / 64)
+            case = {'family': fam, 'ns': list(ns), 'params': list(k), 'points': pts.tolist()}
+            ctx.case(f'textbook-seq:{fam}', case, nontrivial=max(ns) >= 2, tag='gapped' if ns != list(range(ns[0], ns[0] + len(ns))) else 'contig')
+            d = seq_textbook(p, fam, k, ns, pts)
+            if d:
+                ctx.pred_fail(f'textbook-seq:{fam}', case, d)
+    for nms in ([(1, 1), (1, -1)], [(2, 2), (2, -2), (2, 0)], [(3, -1), (3, 1), (1, 1), (1, -1)], [(4, 2), (6, 2), (6, -2), (4, -2), (4, 2)],
+                [(5, -3), (3, 3), (5, 3), (3, -3), (0, 0)]):
+        for norm in (True, False):
+            r = dyadic(rng, 0, 1, (4,))
+            t = float(dyadic(rng, -3, 3, ()))
+            case = {'family': 'zern', 'pairs': [list(q) for q in nms], 'norm': norm, 'points': r.tolist(), 't': t}
+            ctx.case('textbook-seq:zernike', case, nontrivial=True, tag='norm' if norm else 'raw')
+            d = zern_seq_textbook(p, nms, r, t, norm)
+            if d:
+                ctx.pred_fail('textbook-seq:zernike', case, d)
+
     # ---------------- 3. exact arithmetic: prysm on Fraction object arrays vs the Rat model
     qlines, qmeta = [], []
     emax = scale(14, 40)
@@ -650,6 +734,22 @@ def search(ctx, hints):
         d = _check_one(p, 'hopkins', (a, b, c), (0.75, 0.5), 0.625)
         if d:
             return {'item': 'textbook:hopkins', 'input': {'family': 'hopkins', 'order': [a, b, c], 'params': [0.75, 0.5], 'x': 0.625}, 'detail': d}
+    # the families through their *_seq entry points
+    for ns in SEQ_LISTS:
+        for fam in SEQS:
+            if fam == 'qbfs':
+                continue
+            k = params_for(fam, ctx.rng, 0)[0]
+            pts = np.array(xs[FAMS[fam][2]])
+            d = seq_textbook(p, fam, k, ns, pts)
+            if d:
+                return {'item': f'textbook-seq:{fam}', 'input': {'family': fam, 'ns': ns, 'params': list(k), 'points': pts.tolist()}, 'detail': d}
+    for nms in ([(1, 1), (1, -1)], [(2, 2), (2, -2)], [(3, -1), (3, 1), (1, 1)]):
+        for norm in (True, False):
+            d = zern_seq_textbook(p, nms, np.array([0.5, 0.875]), 0.75, norm)
+            if d:
+                return {'item': 'textbook-seq:zernike', 'input': {'family': 'zern', 'pairs': [list(q) for q in nms], 'norm': norm,
+                                                                 'points': [0.5, 0.875], 't': 0.75}, 'detail': d}
     # orthogonality (tested): run the Gram checks and report the first failing entry
     sub = C.Ctx('C07', 'quick', 0)
     try:
@@ -679,6 +779,14 @@ def replay(inp):
         for f in bad[:3]:
             print(f['detail'])
         return bool(bad)
+    if 'ns' in c:
+        d = seq_textbook(p, c['family'], tuple(c.get('params', [])), c['ns'], np.array(c['points'], dtype=float))
+        print(d or 'the *_seq routine equals the textbook definition on this input')
+        return bool(d)
+    if 'pairs' in c:
+        d = zern_seq_textbook(p, [tuple(q) for q in c['pairs']], np.array(c['points'], dtype=float), c['t'], bool(c['norm']))
+        print(d or 'zernike_nm_seq equals the textbook definition on this input')
+        return bool(d)
     if 'x' not in c:
         # a correspondence / predicate case recorded by the run: re-evaluate at its points
         fam, n, k = c['family'], c['order'], c.get('params', [])
